@@ -134,7 +134,7 @@ func checkC04(c ParamCase) (f *report.Failure, nparams int, decidedBy string) {
 	for i := range params {
 		params[i] = "scribbled by the caller"
 	}
-	if psqlAgain, paramsAgain, errAgain := toPGParam(text, c.DF); errAgain != nil || psqlAgain != psql || !reflect.DeepEqual(paramsAgain, keep) {
+	if psqlAgain, paramsAgain, errAgain := toPGParam(text, c.DF); errAgain != nil || psqlAgain != psql || !sameParams(paramsAgain, keep) {
 		return report.Failf("result-aliased", "ToParameterizedPostgres(%q, df=%q) returned %#v; after the caller overwrote that slice the same call returns %q %#v (%v)", text, c.DF, keep, psqlAgain, paramsAgain, errAgain), len(keep), ""
 	}
 	params = keep
@@ -457,4 +457,18 @@ func TestC04(t *testing.T) {
 			rt.Fatalf("violation")
 		}
 	})
+}
+
+// sameParams compares two parameter lists element by element; a nil and an empty
+// list are the same list (no property distinguishes them).
+func sameParams(a, b []any) bool {
+	if len(a) != len(b) {
+		return false
+	}
+	for i := range a {
+		if !reflect.DeepEqual(a[i], b[i]) {
+			return false
+		}
+	}
+	return true
 }
